@@ -44,10 +44,10 @@ func isFeaturesCall(info *types.Info, e ast.Expr) (recv ast.Expr, ok bool) {
 }
 
 type sink struct {
-	stmt   ast.Stmt
-	target types.Object // the table written
-	feat   ast.Expr     // the feature value stored (nil for in-place Loc update)
-	loc    ast.Expr     // for in-place update: the new location
+	stmt    ast.Stmt
+	target  types.Object // the table written
+	feat    ast.Expr     // the feature value stored (nil for in-place Loc update)
+	loc     ast.Expr     // for in-place update: the new location
 	inPlace bool
 }
 
@@ -443,6 +443,60 @@ func checkLoop(info *types.Info, fd *ast.FuncDecl, rs *ast.RangeStmt, ranged typ
 			}
 		}
 	}
+	// UNIFORM: a coordinate transformation of the element's location, and the
+	// statement that stores it, run for every feature: they are not nested
+	// under a condition that looks at the element.
+	if why := uniform(info, rs, f); why != "" {
+		return nil, why
+	}
 	_ = token.NoPos
 	return sk.target, ""
+}
+
+var transformNames = map[string]bool{"Shift": true, "Expand": true, "Reverse": true, "Complement": true, "Normalize": true}
+
+func uniform(info *types.Info, rs *ast.RangeStmt, f types.Object) string {
+	par := core.Parents(rs.Body)
+	why := ""
+	ast.Inspect(rs.Body, func(n ast.Node) bool {
+		c, ok := n.(*ast.CallExpr)
+		if !ok || why != "" {
+			return true
+		}
+		fn := core.Callee(info, c)
+		if fn == nil || !transformNames[fn.Name()] || fn.Pkg() == nil || fn.Pkg().Path() != core.PkgGts {
+			return true
+		}
+		sig, _ := fn.Type().(*types.Signature)
+		if sig == nil || sig.Recv() == nil {
+			return true
+		}
+		for m := par[ast.Node(c)]; m != nil && m != ast.Node(rs.Body); m = par[m] {
+			var cond ast.Expr
+			switch x := m.(type) {
+			case *ast.IfStmt:
+				cond = x.Cond
+			case *ast.SwitchStmt:
+				cond = x.Tag
+				if cond == nil {
+					for _, cc := range x.Body.List {
+						for _, e := range cc.(*ast.CaseClause).List {
+							if core.UsesObj(info, e, f) {
+								cond = e
+							}
+						}
+					}
+				}
+			case *ast.TypeSwitchStmt:
+				why = "the coordinate transformation " + fn.Name() + " sits in a type switch inside the loop: it is applied to only some features"
+				return false
+			}
+			if cond != nil && core.UsesObj(info, cond, f) {
+				why = "the coordinate transformation " + fn.Name() + " is applied only when `" + types.ExprString(cond) + "` holds for the feature: the other features keep their old coordinates"
+				return false
+			}
+		}
+		return true
+	})
+	return why
 }
